@@ -162,9 +162,53 @@ func (s *DialerSet) filterHit(dialer *dialer.Dialer, filters []*config_parser.Fu
 	return true, nil
 }
 
+// validateFilter reports the configuration errors filterHit can report (unknown
+// input, unknown key, bad regexp) for one filter line without looking at any
+// dialer, so that an invalid line is rejected even if no dialer's evaluation
+// reaches the invalid item.
+func validateFilter(filters []*config_parser.Function) error {
+	for _, filter := range filters {
+		var regexKey string
+		switch filter.Name {
+		case FilterInput_Name:
+			regexKey = FilterKey_Name_Regex
+		case FilterInput_SubscriptionTag:
+			regexKey = FilterInput_SubscriptionTag_Regex
+		default:
+			return fmt.Errorf(`unsupported filter input type: "%v"`, filter.Name)
+		}
+		for _, param := range filter.Params {
+			switch {
+			case param.Key == regexKey:
+				if _, ok := regexpCache.Load(param.Val); !ok {
+					regex, err := regexp2.Compile(param.Val, 0)
+					if err != nil {
+						return fmt.Errorf("bad regexp in filter %v: %w", filter.String(false, true, true), err)
+					}
+					regexpCache.Store(param.Val, regex)
+				}
+			case param.Key == "":
+			case param.Key == FilterKey_Name_Keyword && filter.Name == FilterInput_Name:
+			default:
+				return fmt.Errorf(`unsupported filter key "%v" in "filter: %v()"`, param.Key, filter.Name)
+			}
+		}
+	}
+	return nil
+}
+
 func (s *DialerSet) FilterAndAnnotate(filters [][]*config_parser.Function, annotations [][]*config_parser.Param) (dialers []*dialer.Dialer, filterAnnotations []*dialer.Annotation, err error) {
 	if len(filters) != len(annotations) {
 		return nil, nil, fmt.Errorf("[CODE BUG]: unmatched annotations length: %v filters and %v annotations", len(filters), len(annotations))
+	}
+	// Validate every filter line and its annotation once, independently of the dialers.
+	for j, f := range filters {
+		if err := validateFilter(f); err != nil {
+			return nil, nil, err
+		}
+		if _, err := dialer.NewAnnotation(annotations[j]); err != nil {
+			return nil, nil, fmt.Errorf("apply filter annotation: %w", err)
+		}
 	}
 	if len(filters) == 0 {
 		anno := make([]*dialer.Annotation, len(s.dialers))
